@@ -42,7 +42,10 @@ impl Clock for RealTimeClock {
 pub struct GenericTokenBucket(TokenCount);
 
 impl GenericTokenBucket {
-    const MAX_TOKENS: u32 = 100;
+    // The bucket has to hold at least the cost of one rate limited reply: the charge for a
+    // REFUSED is at least 200 tokens and about (query + 2 * (reply - query)) in general, so
+    // with a capacity below that nothing would ever be sent.
+    const MAX_TOKENS: u32 = 1000;
     const TOKENS_PER_SECOND: u32 = 2;
 
     pub const fn new() -> Self {
